@@ -81,7 +81,7 @@ def run_mutant(m, runs, jobs, skip_suite):
         res["checks"] = {}
         caught = False
         for prop in m["props"]:
-            env = dict(os.environ, VERIF_REPO=copy)
+            env = dict(os.environ, VERIF_REPO=copy, VERIF_REPLAY_DIR=os.path.join(copy, "_replays"))
             cmd = [os.path.join(VERIF, "check"), prop, "--no-evidence", "--jobs", str(jobs)]
             if runs:
                 cmd += ["--runs", str(runs)]
